@@ -48,6 +48,11 @@ def custom(spec, tier, seed, res, repo):
     from vflib import driver
     _prebuild(repo)
     n = int(os.environ.get("VERIF_C18_SCHEDULES", N_SCHEDULES[tier]))
+    if n < N_SCHEDULES[tier]:
+        # a deliberately short run (debugging): the evidence thresholds shrink with it
+        spec["min_counters"] = {k: (MIN_COUNTERS[k] * n) // (2 * N_SCHEDULES[tier]) for k in
+                                ("frames_delivered", "lockstep_deliveries_expected", "device_union_checks", "frames_content_equal")}
+        spec["min_distinct"] = max(2, (MIN_DISTINCT * n) // N_SCHEDULES[tier])
     scheds = [proxy_rig.gen_c18_schedule(seed, i, tier) for i in range(n)]
     workers = max(1, min(driver.NCPU, n))
     with concurrent.futures.ProcessPoolExecutor(max_workers=workers) as ex:
@@ -74,23 +79,36 @@ def custom_replay(spec, rp, res, repo):
             break
 
 
+MIN_DISTINCT = 150
+# about a quarter of what a quick run (40 schedules) observes
+MIN_COUNTERS = {"frames_delivered": 8000, "lockstep_deliveries_expected": 5000, "device_union_checks": 2000,
+                "device_state_checks": 250, "frames_content_equal": 8000, "service_changes": 50, "stalls": 25,
+                "resumes": 15, "kills": 30, "clean_disconnects": 60, "channel_flushes": 15,
+                "schedules_select": 10, "schedules_thread": 10, "freerun_ticks": 800,
+                "frames_read_after_stall": 500, "frames_skipped_in_client_streams": 500, "raw_frames_compared": 20}
+
 SPEC = {
     "id": "C18",
     "level": "exploration",
     "level_text": "The real daemon (ASan+UBSan, hook H1: the library's simulated capture device behind the daemon's normal capture "
                   "interface, clocked one frame per byte by the controller) serves 1-6 (thorough: 10) real client processes using "
                   "the public client library. Seeded schedules interleave ticks with connects (any service set / strictness), "
-                  "service changes, stalls, channel flushes, clean disconnects and SIGKILLs, in lock-step (a client that is meant "
-                  "to keep up must have logged frame n before tick n+1) and in free-running bursts, on the select() path and the "
-                  "acquisition-thread path. Monitors over the merged logs demand per client: strictly increasing capture "
-                  "timestamps, no duplicate, no loss while keeping up, every frame equal to the direct capture of the same "
-                  "simulator restricted to the granted services (no missing, foreign or altered line, same timestamp), nobody "
-                  "dropped; for the device: services = union of the clients' services at every lock-step tick, open iff somebody "
-                  "holds a service; for the daemon: sanitizer-silent, exit status 0 on SIGTERM, no leak. Held on the schedules "
-                  "executed, not a proof.",
+                  "service changes, stalls (deep enough to overflow socket and frame queue, one or two clients at once), channel "
+                  "flushes, clean disconnects and SIGKILLs, in lock-step (a client that is meant to keep up must have logged "
+                  "frame n before tick n+1) and in free-running bursts, on the select() path and the acquisition-thread path. "
+                  "Monitors over the merged logs demand per client: strictly increasing capture timestamps, no duplicate, no "
+                  "loss while keeping up (lock-step), every frame equal to the direct capture of the same simulator restricted "
+                  "to the granted services (no missing, foreign or altered line, same timestamp), nobody dropped; for the "
+                  "device: services = union of the clients' services at every lock-step tick, open while somebody holds a "
+                  "service, closed when the last client has left; for the daemon: sanitizer-silent, exit status 0 on SIGTERM, "
+                  "no leak, capture device never touched while the acquisition thread reads it, delivery never at a standstill "
+                  "(reproduced twice at the same virtual time). Held on the schedules executed, not a proof; the interleavings "
+                  "of the daemon's two threads are sampled by the scheduler, not enumerated.",
     "level_note": "Trusted: hook H1 (checked on every run: the frames it hands to the daemon equal a direct capture from the same "
                   "simulator in a fresh process), the controller's virtual clock, the monitors in rig/proxy_rig.py, gcc ASan/UBSan/"
-                  "LSan. V4L/V4L2/bktr drivers and TCP transport are not reached. Watchdog expiry is INCONCLUSIVE, never a violation.",
+                  "LSan (daemon with the fake stack, see design note). V4L/V4L2/bktr drivers and TCP transport are not reached. "
+                  "A single watchdog expiry is INCONCLUSIVE; a standstill of the living daemon that repeats at the same operation "
+                  "and tick in a second run is model:C18:delivery-blocked.",
     "technique": "runtime monitoring: multi-process rig (real daemon + real client library processes) under a virtual clock, "
                  "history monitors (order / exactly-once / completeness / content vs. reference capture / device-service union) "
                  "over client logs and a device trace, ASan+UBSan+LSan on daemon and clients",
@@ -99,12 +117,12 @@ SPEC = {
             "stalled clients, queue-depth bucket at a stalled client, lock-step or burst size, kind of operation preceding the tick)",
     "assumptions": ["hook H1 replaces exactly the V4L layer; its frames are the simulator's frames (verified per run)",
                     "the granted service set of a client is what the client API reports (vbi_capture_proxy_new / update_services)",
-                    "a line belongs to a client iff its service id intersects the granted set"],
+                    "a line belongs to a client iff its service id intersects the granted set",
+                    "'a client that keeps up' = a client the controller has told to read and whose log shows frame n before "
+                    "tick n+1 is sent (lock-step phases); completeness is demanded only there"],
     "jobs": [],
     "custom": custom,
     "custom_replay": custom_replay,
-    "min_distinct": 40,
-    "min_counters": {"frames_delivered": 2000, "lockstep_deliveries_expected": 1000, "device_union_checks": 500,
-                     "service_changes": 10, "stalls": 5, "kills": 3, "clean_disconnects": 5, "schedules_select": 1,
-                     "schedules_thread": 1, "freerun_ticks": 50, "frames_read_after_stall": 20},
+    "min_distinct": MIN_DISTINCT,
+    "min_counters": dict(MIN_COUNTERS),
 }
